@@ -833,3 +833,105 @@ func TestVerif_C13_SiblingReadersThroughMux(t *testing.T) {
 		}
 	})
 }
+
+// TestVerif_C13_WriteDuringAbort: user A's write is blocked in the shared socket; user C aborts (the socket
+// gets a write deadline) and the blocked write takes a while to notice; meanwhile user B — who was never
+// blocked and is aborted by nobody — writes (WriteTo, or the netip.AddrPort path when the socket supports it).
+// B's write must not be hit by the deadline armed for A: it succeeds once the abort is over.
+func TestVerif_C13_WriteDuringAbort(t *testing.T) {
+	st := vfNewStats(t)
+	lf := logging.NewDefaultLoggerFactory()
+	lf.DefaultLogLevel = logging.LogLevelDisabled
+	rapid.Check(t, func(rt *rapid.T) {
+		flavourAP := rapid.Bool().Draw(rt, "socketSupportsAddrPortIO")
+		lag := time.Duration(rapid.IntRange(15, 40).Draw(rt, "deadlineLagMs")) * time.Millisecond
+		nB := rapid.IntRange(1, 3).Draw(rt, "bystanderWrites")
+		bDelay := rapid.IntRange(0, 8).Draw(rt, "bystanderDelayMs")
+		base := newC12Base("10.0.0.1:7000")
+		base.blockWrites = true
+		base.deadlineLag = lag
+		var pc net.PacketConn = base
+		if flavourAP {
+			pc = c12BaseAP{base}
+		}
+		mux := NewUDPMuxDefault(UDPMuxParams{Logger: lf.NewLogger("verif"), UDPConn: pc})
+		defer mux.Close() //nolint:errcheck
+		hA, _ := mux.GetConn("uA", base.local)
+		hB, _ := mux.GetConn("uB", base.local)
+		hC, _ := mux.GetConn("uC", base.local)
+		dst := &net.UDPAddr{IP: net.IPv4(198, 51, 100, 1), Port: 4000}
+		aDone := make(chan error, 1)
+		go func() { _, err := hA.WriteTo([]byte("a"), dst); aDone <- err }()
+		for d := time.Now().Add(20 * time.Second); ; {
+			base.mu.Lock()
+			n := base.inWrite
+			base.mu.Unlock()
+			if n >= 1 {
+				break
+			}
+			if time.Now().After(d) {
+				st.Inconclusive()
+				rt.Fatalf("VERIF-INCONCLUSIVE: writer A did not reach the socket")
+			}
+			runtime.Gosched()
+		}
+		ab, ok := hC.(writeAborter)
+		if !ok {
+			rt.Fatalf("harness: handle does not implement abortWrite")
+		}
+		if err := ab.abortWrite(); err != nil {
+			rt.Fatalf("harness: abortWrite: %v", err)
+		}
+		// the deadline is armed now and A has not noticed yet
+		time.Sleep(time.Duration(bDelay) * time.Millisecond)
+		bDone := make(chan error, nB)
+		apWriter, hasAP := hB.(interface {
+			WriteToAddrPort(b []byte, addr netip.AddrPort) (int, error)
+		})
+		viaAP := flavourAP && hasAP && rapid.Bool().Draw(rt, "bystanderUsesAddrPortWrite")
+		for i := 0; i < nB; i++ {
+			go func() {
+				var err error
+				if viaAP {
+					_, err = apWriter.WriteToAddrPort([]byte("b"), dst.AddrPort()) // what candidates do on such sockets
+				} else {
+					_, err = hB.WriteTo([]byte("b"), dst)
+				}
+				bDone <- err
+			}()
+		}
+		aErr := <-aDone
+		// the abort is over when A has returned; B's writes are let through by the (still blocking) socket
+		for i := 0; i < nB; i++ {
+			base.release <- struct{}{}
+		}
+		desc := fmt.Sprintf("addrPortIO=%v bystanderViaAddrPort=%v lag=%s bystanders=%d after %d ms; A returned %v", flavourAP, viaAP, lag, nB, bDelay, aErr)
+		st.Record(vfHashStr(desc), time.Duration(bDelay)*time.Millisecond < lag, fmt.Sprintf("addrport-write:%v", viaAP))
+		if st.WantSample() {
+			st.Sample(func() string { return desc })
+		}
+		for i := 0; i < nB; i++ {
+			select {
+			case err := <-bDone:
+				if err != nil {
+					st.Fail(rt, "C13/abort/bystander-write-failed", "user B's write, issued while A's blocked write was being aborted, returned %v (it was never blocked and nobody aborted it)\n%s", err, desc)
+				}
+			case <-time.After(20 * time.Second):
+				state := mux.writeState.Load()
+				dead, dump := vfStuck("UDPMuxDefault")
+				if dead {
+					st.Fail(rt, "C13/abort/writer-stuck", "user B's write never returned; writeState=%#x\n%s\n%s", state, desc, dump)
+				}
+				st.Inconclusive()
+				rt.Fatalf("VERIF-INCONCLUSIVE: bystander write still running after 20 s")
+			}
+		}
+		base.mu.Lock()
+		base.blockWrites = false
+		cur := base.deadline
+		base.mu.Unlock()
+		if !cur.IsZero() {
+			st.Fail(rt, "C13/abort/deadline-left-armed", "the shared socket's write deadline is still set after all writes returned\n%s", desc)
+		}
+	})
+}
